@@ -1086,6 +1086,7 @@ package fosite
 //@   ensures [C10.method-permits-transport] at == "" && err == nil && implements(result, OpenIDConnectClient) ==> (fid != "" && fsecret != "" ==> m == "client_secret_post") && (basic_ok(r) && basic_pass(r) != "" ==> m == "client_secret_basic") && (result.IsPublic() ==> m == "none")
 //@   ensures [C10.rejection-is-invalid-client-or-request] at == "" && err != nil ==> ekind(err) == "invalid_client" || ekind(err) == "invalid_request"
 //@   ensures [C10.no-state-change-on-secret-path] at == "" ==> jti_seen == old(jti_seen)
+//@   ensures [C15.seen-jti-stays-seen] forall j string :: old(jti_seen[j]) ==> jti_seen[j]
 //@   assert @call(SetClientAssertionJWT)#1 [C15.assertion-claims-checked] client != nil && client == client_of[clientID] && implements(client, OpenIDConnectClient) && cast(client, OpenIDConnectClient).GetTokenEndpointAuthMethod() == "private_key_jwt" && typeis(claims["iss"], string) && unbox(claims["iss"], string) == clientID && typeis(claims["sub"], string) && unbox(claims["sub"], string) == clientID && typeis(claims["jti"], string) && jti == unbox(claims["jti"], string) && len(jti) > 0
 //@   assert @call(SetClientAssertionJWT)#1 [C15.assertion-has-numeric-expiry] (typeis(claims["exp"], float64) && $arg3 == 1000000000 * trunc(unbox(claims["exp"], float64))) || (typeis(claims["exp"], int64) && $arg3 == 1000000000 * unbox(claims["exp"], int64)) || (typeis(claims["exp"], json.Number) && jn_int_ok(unbox(claims["exp"], json.Number)) && $arg3 == 1000000000 * jn_int(unbox(claims["exp"], json.Number)))
 //@   ensures [C15.assertion-jti-marked-once] at == clientAssertionJWTBearerType && err == nil ==> (exists j string :: len(j) > 0 && !old(jti_seen[j]) && jti_seen == upd(old(jti_seen), j, true))
@@ -1277,6 +1278,12 @@ package fosite
 //@   ensures result != nil
 //@ interface verifEnv.AuthorizeRequest
 //@   ensures result != nil && result.Form != nil
+//@ interface verifEnv.Form
+//@ func verifHistoryClientAuth
+//@   requires env != nil && f != nil && f.Store != nil && (forall c2 context.Context :: f.Config.GetSecretsHasher(c2) != nil)
+//@   modifies everything
+//@   invariant loop#1 [C15.seen-jti-stays-seen] old(jti_seen[jti0]) ==> jti_seen[jti0]
+//@   ensures [C15.seen-jti-stays-seen] old(jti_seen[jti0]) ==> jti_seen[jti0]
 //@ func verifHistoryPARUse
 //@   requires env != nil && f != nil
 //@   modifies everything
